@@ -1,4 +1,571 @@
+//! mc-router: bounded-exhaustive check of property C16 ("returned routes are valid for the graph and
+//! for the caller's constraints") against the real `lightning::routing::router::find_route` on a
+//! real `NetworkGraph`.
+mod brute;
+mod build;
+mod enumerate;
+mod model;
+mod validate;
+
+use build::RRoute;
+use enumerate::{Chunk, Family};
+use mc_common::cli::{self, Tier};
+use mc_common::evidence::{Evidence, Level};
+use mc_common::findings::{self, Violation};
+use mc_common::{json, par, Value};
+use model::*;
+use std::collections::BTreeMap;
+use std::sync::atomic::{AtomicBool, Ordering};
+use std::time::{Duration, Instant};
+
+const ID: &str = "C16";
+
+#[derive(Clone, Debug)]
+struct Fired {
+	oracle: &'static str,
+	/// sub-classification (completeness only): which kind of search failure this is
+	class: String,
+	detail: String,
+}
+
+fn slug(e: &str) -> &'static str {
+	match e {
+		"Failed to find a path to the given destination" => "no-path",
+		"Failed to find a sufficient route to the given destination" => "insufficient",
+		"Failed to find route that adheres to the maximum total fee limit" => "fee-limit",
+		_ => "other-error",
+	}
+}
+
+struct Outcome {
+	result: Result<RRoute, String>,
+	panicked: bool,
+	fired: Vec<Fired>,
+	info: validate::Info,
+	feasible: Option<brute::Feasible>,
+	completeness_applied: bool,
+}
+
+/// One evaluation: real router + validator + completeness oracle.
+fn evaluate(g: &Graph, ng: &lightning::routing::gossip::NetworkGraph<build::Nop>, q: &Query) -> Outcome {
+	let edges = model::edges(g, q);
+	let mut fired = Vec::new();
+	let mut info = validate::Info::default();
+	let mut panicked = false;
+	let result: Result<RRoute, String> = match par::guarded(|| build::run_query(ng, q)) {
+		Ok(Ok(r)) => Ok(r),
+		Ok(Err(e)) => Err(e.to_string()),
+		Err(p) => {
+			panicked = true;
+			fired.push(Fired { oracle: "no-panic", class: String::new(), detail: format!("find_route panicked: {}", p) });
+			Err(format!("panic: {}", p))
+		},
+	};
+	if let Ok(r) = &result {
+		let (fails, i) = validate::validate(q, &edges, r);
+		info = i;
+		for f in fails {
+			fired.push(Fired { oracle: f.oracle, class: String::new(), detail: f.detail });
+		}
+	}
+	let feasible = brute::feasible_single_path(g, q, &edges);
+	let mut completeness_applied = false;
+	if let Some(f) = &feasible {
+		if brute::completeness_applies(q, f) {
+			completeness_applied = true;
+			if let (Err(e), false) = (&result, panicked) {
+				let path: Vec<String> =
+					f.edges.iter().map(|i| format!("{}:{}->{}", edges[*i].scid, edges[*i].from, edges[*i].to)).collect();
+				let class = format!(
+					"{}/{}/{}{}",
+					if validate::allowed_paths(q) == 1 { "single-path-search" } else { "multi-path-search" },
+					slug(e),
+					if f.min_lifted_by_fees { "a-minimum-is-met-only-through-later-fees" } else { "all-minimums-below-amount" },
+					if q.sat_pow != 0 { "/saturation-limit-set" } else { "" },
+				);
+				fired.push(Fired {
+					oracle: "completeness",
+					class,
+					detail: format!(
+						"find_route failed (\"{}\") although the single path [{}] carries {} msat within every limit (total fee {} msat, no fee cap, default CLTV budget)",
+						e, path.join(" "), q.amount, f.total_fee
+					),
+				});
+			}
+		}
+	}
+	Outcome { result, panicked, fired, info, feasible, completeness_applied }
+}
+
+fn eval_fresh(g: &Graph, q: &Query) -> Result<Outcome, String> {
+	let ng = build::build_network_graph(g)?;
+	Ok(evaluate(g, &ng, q))
+}
+
+/// Greedy shrinking: simplify graph and query while the same oracle still fires.
+fn shrink(g: &Graph, q: &Query, oracle: &str, class: &str) -> (Graph, Query, String) {
+	let fires = |g: &Graph, q: &Query| -> Option<String> {
+		match eval_fresh(g, q) {
+			Ok(o) => o.fired.iter().find(|f| f.oracle == oracle && f.class == class).map(|f| f.detail.clone()),
+			Err(_) => None,
+		}
+	};
+	let mut g = g.clone();
+	let mut q = q.clone();
+	let mut detail = fires(&g, &q).unwrap_or_default();
+	loop {
+		let mut progressed = false;
+		let mut cands: Vec<(Graph, Query)> = Vec::new();
+		// query simplifications
+		let mut push_q = |f: &dyn Fn(&mut Query)| {
+			let mut nq = q.clone();
+			f(&mut nq);
+			if nq != q {
+				cands.push((g.clone(), nq));
+			}
+		};
+		push_q(&|x| x.scorer = Scorer::Fixed(0));
+		push_q(&|x| x.inflight = None);
+		push_q(&|x| x.sat_pow = 0);
+		push_q(&|x| x.failed.clear());
+		push_q(&|x| x.failed_blinded.clear());
+		push_q(&|x| x.fee_limit = None);
+		push_q(&|x| x.max_cltv = 1008);
+		push_q(&|x| x.max_len = 19);
+		push_q(&|x| x.seed = 42);
+		push_q(&|x| x.first_hops = None);
+		push_q(&|x| x.tail = Tail::Clear { hints: Vec::new() });
+		push_q(&|x| x.max_paths = 1);
+		push_q(&|x| {
+			if let Some(f) = &mut x.first_hops {
+				if f.len() > 1 {
+					f.pop();
+				}
+			}
+		});
+		// graph simplifications (short channel ids stay stable: only the last channel is ever dropped)
+		if let Some(last) = g.chans.last() {
+			let scid = Graph::scid(g.chans.len() - 1);
+			let referenced = q.failed.contains(&scid)
+				|| q.inflight.as_ref().map_or(false, |i| i.scid == scid)
+				|| q.first_hops.as_ref().map_or(false, |f| f.iter().any(|h| h.scid == scid));
+			if !referenced && g.chans.len() > 1 {
+				let _ = last;
+				let mut ng = g.clone();
+				ng.chans.pop();
+				cands.push((ng, q.clone()));
+			}
+		}
+		for i in 0..g.chans.len() {
+			for (ab, to) in [(true, Pol::NoUpdate), (false, Pol::NoUpdate), (true, Pol::Free), (false, Pol::Free)] {
+				let mut ng = g.clone();
+				let slot = if ab { &mut ng.chans[i].pol_ab } else { &mut ng.chans[i].pol_ba };
+				if *slot == to || (*slot == Pol::NoUpdate) {
+					continue;
+				}
+				*slot = to;
+				cands.push((ng, q.clone()));
+			}
+			if g.chans[i].cap != Cap::Small {
+				let mut ng = g.clone();
+				ng.chans[i].cap = Cap::Small;
+				cands.push((ng, q.clone()));
+			}
+		}
+		for (cg, cq) in cands {
+			if let Some(d) = fires(&cg, &cq) {
+				g = cg;
+				q = cq;
+				detail = d;
+				progressed = true;
+				break;
+			}
+		}
+		if !progressed {
+			break;
+		}
+	}
+	(g, q, detail)
+}
+
+#[derive(Default, Clone)]
+struct FamStats {
+	graphs: u64,
+	queries: u64,
+	routes: u64,
+	refused: u64,
+}
+
+#[derive(Default)]
+struct Stats {
+	fam: BTreeMap<usize, FamStats>,
+	c: BTreeMap<&'static str, u64>,
+	refusal_reasons: BTreeMap<String, u64>,
+	/// first firing per oracle in this chunk
+	fired: Vec<(Graph, Query, Fired)>,
+	fired_total: BTreeMap<&'static str, u64>,
+	fired_classes: BTreeMap<String, u64>,
+	samples: Vec<Value>,
+	skipped: bool,
+}
+
+impl Stats {
+	fn bump(&mut self, k: &'static str) {
+		*self.c.entry(k).or_insert(0) += 1;
+	}
+}
+
+fn run_chunk(ch: &Chunk, fams: &[Family], thorough: bool, stop: &AtomicBool, deadline: Instant) -> Stats {
+	let mut st = Stats::default();
+	if stop.load(Ordering::Relaxed) || Instant::now() >= deadline {
+		stop.store(true, Ordering::Relaxed);
+		st.skipped = true;
+		return st;
+	}
+	let fam = &fams[ch.family];
+	let overflow = fam.qset == enumerate::QSet::Overflow;
+	for idx in ch.lo..ch.hi {
+		let g = fam.graph(&ch.ms, &ch.caps, idx);
+		let ng = match build::build_network_graph(&g) {
+			Ok(n) => n,
+			Err(e) => cli::die(&format!("harness: graph {} rejected by NetworkGraph: {}", g.compact(), e)),
+		};
+		let qs = enumerate::queries(&g, fam, thorough);
+		let fs = st.fam.entry(ch.family).or_default();
+		fs.graphs += 1;
+		fs.queries += qs.len() as u64;
+		let mut routes = 0u64;
+		let mut refused = 0u64;
+		for q in &qs {
+			let o = evaluate(&g, &ng, q);
+			match &o.result {
+				Ok(r) => {
+					routes += 1;
+					st.bump("routes");
+					if r.paths.len() >= 2 {
+						st.bump("routes_mpp");
+					}
+					if o.info.used_first_hop {
+						st.bump("routes_via_first_hop");
+					}
+					if o.info.used_hint {
+						st.bump("routes_via_hint");
+					}
+					if o.info.used_blinded {
+						st.bump("routes_via_blinded_tail");
+					}
+					if o.info.shared_channel {
+						st.bump("routes_sharing_a_channel");
+					}
+					if o.info.raised_to_minimum {
+						st.bump("routes_raised_to_a_minimum");
+					}
+					if o.info.exemption_used {
+						st.bump("routes_using_minimum_exemption");
+					}
+					if o.info.overpaid_recipient {
+						st.bump("routes_overpaying_recipient");
+					}
+					if o.info.cltv_below_policy {
+						st.bump("info_cltv_below_policy");
+					}
+					if q.fee_limit.is_some() {
+						st.bump("routes_under_fee_limit");
+					}
+					if q.inflight.is_some() {
+						st.bump("routes_with_inflight");
+					}
+					if overflow {
+						st.bump("overflow_routes");
+						if o.info.total_fee > u32::MAX as u128 {
+							st.bump("overflow_routes_paying_extreme_fee");
+						}
+					}
+					if r.paths.iter().any(|p| p.hops.len() >= 3) {
+						st.bump("routes_3plus_hops");
+					}
+					if st.samples.len() < 2 && (r.paths.len() >= 2 || st.samples.is_empty()) {
+						st.samples.push(json!({"graph": g.compact(), "query": q.to_json(), "route": r.to_json()}));
+					}
+				},
+				Err(e) => {
+					if !o.panicked {
+						refused += 1;
+						st.bump("refused");
+						*st.refusal_reasons.entry(e.clone()).or_insert(0) += 1;
+						match &o.feasible {
+							None => st.bump("refused_no_single_path"),
+							Some(f) if !f.strict && q.fee_limit.is_none() && q.max_cltv == 1008 => {
+								// a single path would do, but only beyond the saturation share / u64 fee arithmetic
+								if q.sat_pow != 0 {
+									st.bump("refused_single_path_only_above_saturation_share");
+								} else {
+									st.bump("refused_single_path_needs_fee_product_over_u64");
+								}
+							},
+							_ => {},
+						}
+						if overflow {
+							st.bump("overflow_refused");
+						}
+					}
+				},
+			}
+			if o.feasible.is_some() {
+				st.bump("single_path_feasible");
+			}
+			if o.completeness_applied {
+				st.bump("completeness_obligations");
+			}
+			for f in o.fired {
+				*st.fired_total.entry(f.oracle).or_insert(0) += 1;
+				*st.fired_classes.entry(format!("{}:{}", f.oracle, f.class)).or_insert(0) += 1;
+				if !st.fired.iter().any(|(_, _, x)| x.oracle == f.oracle && x.class == f.class) {
+					st.fired.push((g.clone(), q.clone(), f));
+				}
+			}
+		}
+		let fs = st.fam.get_mut(&ch.family).unwrap();
+		fs.routes += routes;
+		fs.refused += refused;
+	}
+	st
+}
+
+fn replay(path: &std::path::Path) -> i32 {
+	let text = std::fs::read_to_string(path).unwrap_or_else(|e| cli::die(&format!("cannot read {}: {}", path.display(), e)));
+	let v: Value = mc_common::serde_json::from_str(&text).unwrap_or_else(|e| cli::die(&format!("bad replay json: {}", e)));
+	let rp = if v.get("replay").is_some() { &v["replay"] } else { &v };
+	let g = Graph::from_json(&rp["graph"]).unwrap_or_else(|| cli::die("replay: bad graph"));
+	let q = Query::from_json(&rp["query"]).unwrap_or_else(|| cli::die("replay: bad query"));
+	if std::env::var("MC_ROUTER_VERBOSE").is_ok() {
+		build::VERBOSE.store(true, Ordering::Relaxed);
+		par::set_quiet(false);
+	}
+	let o = eval_fresh(&g, &q).unwrap_or_else(|e| cli::die(&format!("replay: {}", e)));
+	println!("graph: {}", g.compact());
+	println!("query: {}", q.compact());
+	match &o.result {
+		Ok(r) => println!("find_route: Ok {}", r.to_json()),
+		Err(e) => println!("find_route: Err \"{}\"", e),
+	}
+	match &o.feasible {
+		Some(f) => println!("brute force: a single path exists (edges {:?}, fee {} msat, cltv {})", f.edges, f.total_fee, f.cltv),
+		None => println!("brute force: no single path carries the amount"),
+	}
+	if o.fired.is_empty() {
+		println!("REPLAY: no violation");
+		0
+	} else {
+		for f in &o.fired {
+			println!("REPLAY: VIOLATION property={} oracle={} {}", ID, f.oracle, f.detail);
+		}
+		1
+	}
+}
+
 fn main() {
-	let _args = mc_common::cli::parse();
-	mc_common::cli::die("engine not built yet");
+	let args = cli::parse();
+	par::install_quiet_panic_hook();
+	if let Some(p) = &args.replay {
+		std::process::exit(replay(p));
+	}
+	if args.property != ID {
+		cli::die(&format!("mc-router only implements {}", ID));
+	}
+	let thorough = args.tier == Tier::Thorough;
+	let mut fams = enumerate::families(thorough);
+	if let Some(only) = args.opt("family") {
+		fams.retain(|f| f.name.contains(only));
+		if fams.is_empty() {
+			cli::die("no family matches --opt family=");
+		}
+	}
+	let chunk_graphs = args.opt_u64("chunk").unwrap_or(if thorough { 256 } else { 32 });
+	let mut chunks = enumerate::chunks(&fams, chunk_graphs);
+	if let Some(n) = args.opt_u64("max_chunks") {
+		chunks.truncate(n as usize);
+	}
+	let cap_s = if args.wall_cap_s > 0 { args.wall_cap_s } else if thorough { 2400 } else { 240 };
+	let start = Instant::now();
+	let deadline = start + Duration::from_secs(cap_s);
+	let stop = AtomicBool::new(false);
+
+	let mut ev = Evidence::new(ID, args.tier, args.seed, Level::Exploration);
+	let results = par::map(&chunks, args.threads, |_, ch| run_chunk(ch, &fams, thorough, &stop, deadline));
+
+	let max_report = args.opt_u64("max_report").unwrap_or(3) as usize;
+	// Merge deterministically in chunk order.
+	let mut total = Stats::default();
+	let mut skipped_chunks = 0u64;
+	let mut fam_complete: Vec<bool> = vec![true; fams.len()];
+	let mut machinery_panics = Vec::new();
+	for (ci, r) in results.into_iter().enumerate() {
+		match r {
+			Err(p) => {
+				machinery_panics.push(format!("chunk {}: {}", ci, p));
+			},
+			Ok(s) => {
+				if s.skipped {
+					skipped_chunks += 1;
+					fam_complete[chunks[ci].family] = false;
+					continue;
+				}
+				for (k, v) in s.fam {
+					let e = total.fam.entry(k).or_default();
+					e.graphs += v.graphs;
+					e.queries += v.queries;
+					e.routes += v.routes;
+					e.refused += v.refused;
+				}
+				for (k, v) in s.c {
+					*total.c.entry(k).or_insert(0) += v;
+				}
+				for (k, v) in s.refusal_reasons {
+					*total.refusal_reasons.entry(k).or_insert(0) += v;
+				}
+				for (k, v) in s.fired_total {
+					*total.fired_total.entry(k).or_insert(0) += v;
+				}
+				for (k, v) in s.fired_classes {
+					*total.fired_classes.entry(k).or_insert(0) += v;
+				}
+				for f in s.fired {
+					// keep the first few firings per oracle and class (enumeration order)
+					if total.fired.iter().filter(|(_, _, x)| x.oracle == f.2.oracle && x.class == f.2.class).count() < max_report {
+						total.fired.push(f);
+					}
+				}
+				for smp in s.samples {
+					if total.samples.len() < 6 {
+						total.samples.push(smp);
+					}
+				}
+			},
+		}
+	}
+	if !machinery_panics.is_empty() {
+		cli::die(&format!("harness panicked outside the subject: {}", machinery_panics[0]));
+	}
+
+	let get = |k: &str| total.c.get(k).copied().unwrap_or(0);
+	let evaluations: u64 = total.fam.values().map(|f| f.queries).sum();
+	let graphs: u64 = total.fam.values().map(|f| f.graphs).sum();
+	let capped = skipped_chunks > 0;
+
+	// Violations: shrink the first firings of each oracle and report distinct minimal inputs.
+	let mut violations: Vec<Violation> = Vec::new();
+	let mut seen = std::collections::BTreeSet::new();
+	for (g, q, f) in &total.fired {
+		let (sg, sq, detail) = shrink(g, q, f.oracle, &f.class);
+		// Completeness failures are search-heuristic weaknesses with very many distinct minimal
+		// inputs each; they are identified by their class. Everything else by the minimal input.
+		let identity = if f.oracle == "completeness" {
+			format!("{}|{}", f.oracle, f.class)
+		} else {
+			format!("{}|{}|{}", f.oracle, sg.compact(), sq.compact())
+		};
+		if !seen.insert(identity.clone()) {
+			continue;
+		}
+		let route = eval_fresh(&sg, &sq).ok().map(|o| match o.result {
+			Ok(r) => r.to_json(),
+			Err(e) => json!({ "error": e }),
+		});
+		violations.push(Violation {
+			property: ID.to_string(),
+			oracle: f.oracle.to_string(),
+			identity,
+			detail: format!("{} [graph {}] (first seen on graph {} / query {})", if detail.is_empty() { &f.detail } else { &detail }, sg.compact(), g.compact(), q.compact()),
+			replay: json!({"graph": sg.to_json(), "query": sq.to_json(), "router_output": route,
+				"unshrunk": {"graph": g.to_json(), "query": q.to_json()}}),
+		});
+	}
+
+	// Evidence.
+	ev.set("evaluations", evaluations);
+	ev.set("distinct_nontrivial", get("routes"));
+	ev.set(
+		"rule",
+		"a (graph, query) pair counts as non-trivial when find_route returned a route for it (which the validator then checked hop by hop); every enumerated pair is distinct by construction (distinct mixed-radix index / distinct query in the per-graph list)",
+	);
+	ev.set("exhaustive", !capped && args.opt("family").is_none() && args.opt("max_chunks").is_none());
+	ev.set("capped", capped);
+	ev.set("skipped_chunks", skipped_chunks);
+	ev.set("graphs", graphs);
+	ev.set("chunks", chunks.len() as u64);
+	let mut famj = mc_common::serde_json::Map::new();
+	for (i, f) in fams.iter().enumerate() {
+		let s = total.fam.get(&i).cloned().unwrap_or_default();
+		famj.insert(
+			f.name.to_string(),
+			json!({"nodes": f.nodes, "channels": f.chans, "graphs": s.graphs, "queries": s.queries, "routes": s.routes,
+				"refused": s.refused, "complete": fam_complete[i],
+				"policy_domain": f.pol.iter().map(|p| p.name()).collect::<Vec<_>>(),
+				"backward_direction_domain": f.pol_backward.map(|b| b.iter().map(|p| p.name()).collect::<Vec<_>>()),
+				"query_set": format!("{:?}", f.qset)}),
+		);
+	}
+	ev.set("families", Value::Object(famj));
+	for (k, v) in &total.c {
+		ev.set(k, *v);
+	}
+	ev.set("refusal_reasons", json!(total.refusal_reasons));
+	ev.set("oracle_firings", json!(total.fired_total));
+	ev.set("oracle_firings_by_class", json!(total.fired_classes));
+	ev.set(
+		"bounds",
+		json!({
+			"nodes": if thorough { 4 } else { 3 },
+			"capacities_msat": {"small": 1_000_000u64, "large": 5_000_000u64, "huge": MAX_VALUE_MSAT, "unknown": "no UTXO lookup, htlc_maximum 1_000_000"},
+			"policies": {"free": "0/0, min 0, max=capacity, cltv 6", "base": "1000 msat, min 1", "prop": "1 %, min 1000",
+				"restr": "500 msat + 0.5 %, min 150_000, max 400_000, cltv 40", "extreme": "u32::MAX base and ppm", "disabled": "like free, disable bit", "none": "no channel_update"},
+			"final_cltv": FINAL_CLTV,
+		}),
+	);
+	for s in &total.samples {
+		ev.sample(s.clone(), 6);
+	}
+	ev.assume("The NetworkGraph is populated through update_channel_from_unsigned_announcement (with a UtxoLookup that supplies the capacity, or none for 'unknown' capacity) and update_channel_unsigned; signature checks of gossip are out of scope here (C17).");
+	ev.assume("Completeness ('a sufficient single path exists => no Err') is asserted only when max_total_routing_fee_msat is None, max_total_cltv_expiry_delta is the default 1008 and the path fits with the router's 80-block shadow-offset reserve. The brute force mirrors these documented router behaviours, which the property does not forbid: a public channel is usable only if both directions have a channel_update; at most min(max_path_length, 19) hops; supplied first hops replace the payer's announced channels; a blinded path is usable only if its introduction node is known; amounts above 21M BTC are refused.");
+	ev.assume("The exception 'amounts deliberately raised to meet a later hop's minimum' is implemented as: a hop whose forwarding node keeps more than its policy fee while the amount it receives equals that channel's htlc_minimum (or the last hop at its minimum while the recipient is overpaid) is a raise; limits of *earlier* hops are checked against the amounts recomputed without such raises. Counters routes_raised_to_a_minimum / routes_using_minimum_exemption report how often this mattered.");
+	ev.assume("In-flight HTLCs reach find_route only through ScorerAccountingForInFlightHtlcs (they change penalties, not limits); the validator therefore does not subtract them from channel limits.");
+	ev.assume("Per-hop CLTV deltas are not compared with channel policies (the property only bounds the total); info_cltv_below_policy counts routes where a hop's delta was below the next channel's policy.");
+	ev.assume("Isomorphic graphs are not merged: node-id order and short-channel-id order influence the router's tie-breaking, so merging would not be sound.");
+
+	// Vacuity guards (full runs only).
+	if args.opt("family").is_none() && args.opt("max_chunks").is_none() && !capped {
+		for k in [
+			"routes",
+			"routes_mpp",
+			"refused",
+			"routes_via_first_hop",
+			"routes_via_hint",
+			"routes_via_blinded_tail",
+			"overflow_routes",
+			"overflow_refused",
+			"overflow_routes_paying_extreme_fee",
+			"completeness_obligations",
+			"routes_sharing_a_channel",
+			"routes_under_fee_limit",
+			"refused_no_single_path",
+		] {
+			if get(k) == 0 {
+				cli::die(&format!("vacuity guard: '{}' was never observed", k));
+			}
+		}
+	}
+	eprintln!(
+		"C16 {}: {} graphs, {} queries, {} routes ({} MPP), {} refused, {} completeness obligations, {:.1}s{}",
+		args.tier.name(),
+		graphs,
+		evaluations,
+		get("routes"),
+		get("routes_mpp"),
+		get("refused"),
+		get("completeness_obligations"),
+		start.elapsed().as_secs_f64(),
+		if capped { " (CAPPED)" } else { "" }
+	);
+	std::process::exit(findings::conclude(ID, &violations, &mut ev));
 }
